@@ -843,6 +843,7 @@ class OverlayStore(Store):
                 return self.overlay.get_bytes(key)
             else:
                 return self.fallback.get_bytes(key)
+        raise KeyNotFoundStoreException(key=key, store=self)
 
     def get_metadata(self, key):
         if key not in self.removed:
